@@ -107,10 +107,7 @@ func exploreGate(c *an.Ctx, s *sched, rule string) ([]gateRow, bool) {
 		return "other:" + an.Prov(v)
 	}
 	// result φ: header φ that flows to a return
-	stop := map[*ssa.BasicBlock]bool{l.Header: true}
-	for _, x := range l.Exits() {
-		stop[x] = true
-	}
+	stop := l.StopSet()
 	entry := l.BodyEntry()
 	if entry == nil {
 		c.Und(rule, key, g.Pos(), "loop has no body")
@@ -819,10 +816,7 @@ func edgeWiring(c *an.Ctx, s *sched, rule string) {
 		return
 	}
 	_, elems := depLoop.RangeKeyValue()
-	stop := map[*ssa.BasicBlock]bool{depLoop.Header: true}
-	for _, x := range depLoop.Exits() {
-		stop[x] = true
-	}
+	stop := depLoop.StopSet()
 	ex := &an.Explorer{P: p, Stop: stop, NoReturn: noReturn}
 	ex.Effect = func(in ssa.Instruction, st *an.State) string {
 		call, ok := in.(*ssa.Call)
